@@ -637,6 +637,15 @@ func (n *Node) fastForward() error {
 		return fmt.Errorf("getBestFastForwardResponse returned nil")
 	}
 
+	//verify the response before touching the app or the hashgraph
+	n.coreLock.Lock()
+	err = n.core.checkFastForward(&resp.Block, &resp.Frame)
+	n.coreLock.Unlock()
+	if err != nil {
+		n.logger.WithError(err).Error("Checking FastForwardResponse")
+		return err
+	}
+
 	//update app from snapshot
 	err = n.proxy.Restore(resp.Snapshot)
 	if err != nil {
